@@ -200,33 +200,44 @@ def rule_label(ctx: Ctx) -> RuleReport:
     if not body_try:
         raise AnalysisError("C10-LABEL: _process_archive_entry has no try body")
     stmts = body_try[0].body
-    txt = [anorm(s, pe.node) for s in stmts]
+
+    def val(e):
+        """the expression a local stands for (single plain binding in the step), the expression itself otherwise"""
+        hops = 0
+        while isinstance(e, ast.Name) and hops < 4:
+            defs = [a.value for st_ in stmts for a in ast.walk(st_) if isinstance(a, ast.Assign) and len(a.targets) == 1 and isinstance(a.targets[0], ast.Name) and a.targets[0].id == e.id]
+            if len(defs) != 1:
+                break
+            e, hops = defs[0], hops + 1
+        return e
+
     want = ["v0 = f'{archive_path}!/{filename}' if archive_path else filename", "v0 = _get_file_extractor_cached(basename)", "v0 = io.BytesIO(file_data)"]
+    loops = [n for n in stmts if isinstance(n, ast.For)]
+    it0 = loops[0].iter if loops and isinstance(loops[0].iter, ast.Call) else None
+    got = {}
+    if it0 is not None:
+        kwp = next((k.value for k in it0.keywords if k.arg == "path"), None)
+        got = {want[0]: kwp, want[1]: it0.func, want[2]: it0.args[0] if len(it0.args) == 1 else None}
     for w in want:
-        if w in txt:
+        e_ = got.get(w)
+        if e_ is not None and "v0 = " + norm(val(e_)) == w:
             rep.ok({"_process_archive_entry": w})
         else:
             rep.fail(Finding("C10-LABEL", ARCH, pe.qual, w, f"the per-member step no longer performs `{w}` (v0 = a local)", line=pe.node.lineno))
-    def _var_of(rhs_anorm):
-        for st_ in stmts:
-            if isinstance(st_, ast.Assign) and len(st_.targets) == 1 and isinstance(st_.targets[0], ast.Name) and anorm(st_, pe.node) == rhs_anorm:
-                return st_.targets[0].id
-        return None
-    v_path, v_ext, v_bytes = _var_of(want[0]), _var_of(want[1]), _var_of(want[2])
-    loops = [n for n in stmts if isinstance(n, ast.For)]
+    label_txt = want[0][5:]
     good_loop = False
-    if loops and isinstance(loops[0].iter, ast.Call) and isinstance(loops[0].iter.func, ast.Name) and isinstance(loops[0].target, ast.Name):
-        it = loops[0].iter
-        kw = {k.arg: norm(k.value) for k in it.keywords}
+    if loops and it0 is not None and isinstance(loops[0].target, ast.Name):
+        it = it0
         tv = loops[0].target.id
         lb = loops[0].body
         yields = [st for st in lb if norm(st) == f"yield {tv}"]
         exits = [x for st in lb for x in ast.walk(st) if isinstance(x, (ast.Continue, ast.Break, ast.Return, ast.Raise))]
         rebinds = [x for st in lb for x in ast.walk(st) if isinstance(x, (ast.Assign, ast.AugAssign)) and any(isinstance(t, ast.Name) and t.id == tv for t in (x.targets if isinstance(x, ast.Assign) else [x.target]))]
-        good_loop = it.func.id == v_ext and len(it.args) == 1 and norm(it.args[0]) == v_bytes and kw == {"path": v_path} and len(yields) == 1 and not exits and not rebinds
+        v_ext = it.func.id if isinstance(it.func, ast.Name) else None
+        good_loop = all("v0 = " + norm(val(got[w])) == w for w in want if got.get(w) is not None) and all(got.get(w) is not None for w in want) and set(k.arg for k in it.keywords) == {"path"} and len(yields) == 1 and not exits and not rebinds
         # the member's label is derived from the member name alone (no lookup on the host): populate_from_path(<label>, resolve=False)
         relabel = [c for st in lb for c in ast.walk(st) if isinstance(c, ast.Call) and isinstance(c.func, ast.Attribute) and c.func.attr == "populate_from_path"]
-        lexical = [c for c in relabel if c.args and norm(c.args[0]) == v_path and any(k.arg == "resolve" and isinstance(k.value, ast.Constant) and k.value.value is False for k in c.keywords)
+        lexical = [c for c in relabel if c.args and norm(val(c.args[0])) == label_txt and any(k.arg == "resolve" and isinstance(k.value, ast.Constant) and k.value.value is False for k in c.keywords)
                    and norm(c.func.value) == f"{tv}.get_metadata()"]
         before_yield = bool(lexical) and bool(yields) and lexical[0].lineno < yields[0].lineno
         # ... for every member: the only results that keep their label are those of a nested archive (labelled by the inner call)
@@ -234,7 +245,7 @@ def rule_label(ctx: Ctx) -> RuleReport:
         if lexical:
             conds, opaque, _ = path_conditions(pe.node, lexical[0])
             inside = [str(c) for c in conds if lexical[0].lineno >= loops[0].lineno and any(x is lexical[0] for x in ast.walk(loops[0]))] + list(opaque)
-            extra = [c for c in inside if c not in (f"{v_ext} is not read_archive",) and not c.startswith("except ")]
+            extra = [c for c in inside if c not in (f"{v_ext} is not read_archive", "_get_file_extractor_cached(basename) is not read_archive") and not c.startswith("except ")]
             # conditions that already hold when the loop is entered do not make the labelling partial
             loop_conds, loop_opaque, _ = path_conditions(pe.node, loops[0])
             extra = [c for c in extra if c not in {str(x) for x in loop_conds} | set(loop_opaque)]
@@ -610,16 +621,25 @@ def _streams_consumed(ctx, rep):
     if not maps:
         raise AnalysisError("C10-FOLDER: the loop that maps files to folders was not found")
     mp = maps[0]
-    skips = [i for i in mp.body if isinstance(i, ast.If) and i.body and isinstance(i.body[-1], ast.Continue)]
     mi = mp.target.elts[0].id if isinstance(mp.target, ast.Tuple) and isinstance(mp.target.elts[0], ast.Name) else (mp.target.id if isinstance(mp.target, ast.Name) else None)
     es_map = f"{ES}[{mi}]"
-    ok_dir = isdir and isdir in size_guard_names and any(isinstance(a, ast.Attribute) and a.attr == "is_directory" for i in skips for a in ast.walk(i.test))
-    covers = False
-    for i in skips:
-        atoms = sorted(_atoms(i.test, set()))
-        if es_map in atoms:
-            others = [a for a in atoms if a != es_map]
-            covers = all(_truth(i.test, dict(zip(others, vals), **{es_map: True})) for vals in itertools.product([False, True], repeat=len(others)))
+    # the conditions under which an entry takes a slot (`<entry>.folder_index = ...`), however they are spelled: skip guards that
+    # `continue`, or a positive test around the assignment
+    slot = next((st for st in ast.walk(mp) if isinstance(st, ast.Assign) and any(isinstance(t, ast.Attribute) and t.attr == "folder_index" for t in st.targets)), None)
+    mconds, mopaque, _ = path_conditions(bf.node, slot) if slot is not None else ([], [], [])
+    mdefs = {n.targets[0].id: n.value for n in mp.body if isinstance(n, ast.Assign) and len(n.targets) == 1 and isinstance(n.targets[0], ast.Name)}
+    mtests = []
+    for cd in list(mconds) + [o for o in mopaque if not o.startswith("except ")]:
+        try:
+            mtests.append(_expand(ast.parse(str(cd), mode="eval").body, mdefs))
+        except SyntaxError:
+            pass
+    matoms = set()
+    for t in mtests:
+        _atoms(t, matoms)
+    ok_dir = isdir and isdir in size_guard_names and any(a.endswith(".is_directory") for a in matoms)
+    others = sorted(a for a in matoms if a != es_map)
+    covers = es_map in matoms and not any(all(_truth(t, dict(zip(others, vals), **{es_map: True})) for t in mtests) for vals in itertools.product([False, True], repeat=len(others)))
     if ok_dir and covers:
         rep.ok({"folder_map": f"skips directories (`{isdir}`) and every entry with `{es_map}`"})
     elif not ok_dir:
